@@ -118,6 +118,7 @@ type Program struct {
 	NotAllowed bool // HandleMethodNotAllowed
 	CacheCap   int  // -1 off
 	PanicHook  bool // install an OnPanic hook (status 500)
+	Strict     bool // StrictLastSlash
 
 	// computed by Model()
 	Globals         []*MW
@@ -185,7 +186,7 @@ func describeStmts(body []Stmt, indent string, out *[]string) {
 func (p *Program) Describe() any {
 	var out []string
 	describeStmts(p.Body, "", &out)
-	return map[string]any{"HandleMethodNotAllowed": p.NotAllowed, "cache_capacity": p.CacheCap, "OnPanic_hook": p.PanicHook, "program": out}
+	return map[string]any{"HandleMethodNotAllowed": p.NotAllowed, "cache_capacity": p.CacheCap, "OnPanic_hook": p.PanicHook, "StrictLastSlash": p.Strict, "program": out}
 }
 
 // ----- reference scope model -----
@@ -242,10 +243,10 @@ func (p *Program) Model() {
 				if groupReturned {
 					p.RouteAfterGroup = true
 				}
-				full := normPrefix(x.Path)
+				full, _ := RefNormalize(x.Path, p.Strict)
 				x.Chain = nil
 				if sc != nil {
-					full, _ = RefNormalize(sc.prefix+normPrefix(x.Path), false)
+					full, _ = RefNormalize(sc.prefix+full, p.Strict)
 					x.Chain = append(x.Chain, sc.handlers...)
 				}
 				x.FullPath = full
@@ -278,6 +279,9 @@ func (p *Program) Build(extra ...func(*rux.Router)) *rux.Router {
 	}
 	if p.CacheCap >= 0 {
 		opts = append(opts, rux.CachingWithNum(uint16(p.CacheCap)))
+	}
+	if p.Strict {
+		opts = append(opts, rux.StrictLastSlash)
 	}
 	opts = append(opts, extra...)
 	r := rux.New(opts...)
@@ -427,6 +431,7 @@ type progGen struct {
 	maxMW    int  // max middleware per list
 	noGlobal bool // no top-level Use statements
 	optOnly  bool // some routes are dynamic without a variable: "/r3[.html]"
+	strict   bool // StrictLastSlash router: some route paths end in '/', prefixes are spelled cleanly
 	styles   bool // also register through Any / prepared NewRoute+Use+AddRoute / AttachTo
 
 	sharedMW  map[int][]*MW   // slice variables of the application that are passed to several groups
@@ -474,6 +479,9 @@ func (g *progGen) route0(probe bool) *RouteStmt {
 		rs.Path += "/{id}"
 	} else if g.optOnly && chance(g.r, 1, 4) {
 		rs.Path += "[.html]"
+	}
+	if g.strict && chance(g.r, 1, 3) {
+		rs.Path += "/" // significant on a StrictLastSlash router
 	}
 	if chance(g.r, 1, 8) {
 		rs.Path = strings.TrimPrefix(rs.Path, "/") // registered without the leading slash
@@ -526,10 +534,10 @@ func (g *progGen) body(depth int, budget *int) []Stmt {
 			if g.dynamic && chance(g.r, 1, 8) {
 				gs.Prefix += "/{gid}" // a prefix with a path variable
 			}
-			if chance(g.r, 1, 6) {
+			if chance(g.r, 1, 6) && !g.strict {
 				gs.Prefix = fmt.Sprintf("g%d/", g.nGroup) // clean prefix, sloppy spelling
 			}
-			if depth == 0 && chance(g.r, 1, 12) {
+			if depth == 0 && chance(g.r, 1, 12) && !g.strict {
 				gs.Prefix = pick(g.r, []string{"", "/"})
 			}
 			if g.ctrl && chance(g.r, 1, 4) {
@@ -601,7 +609,7 @@ func GenProgram(r *rand.Rand, g *progGen) *Program {
 		g.maxMW = 3
 	}
 	budget := 14
-	p := &Program{CacheCap: -1, NotAllowed: chance(r, 1, 2)}
+	p := &Program{CacheCap: -1, NotAllowed: chance(r, 1, 2), Strict: g.strict}
 	p.Body = g.body(0, &budget)
 	// make sure there is at least one route
 	hasRoute := false
